@@ -77,7 +77,7 @@ void setup(vf::Options &o) {
   // (types, name patterns, unit selectors, meter selectors, view specs): prefixes of the tables above
   fill(g_single, 4, 7, 3, 7, 5);
   if (o.thorough) { fill(g_pair, 4, 4, 2, 5, 5); fill(g_triple, 2, 2, 1, 3, 4); }
-  else fill(g_pair, 3, 3, 2, 4, 4);
+  else fill(g_pair, 3, 3, 1, 4, 4);
 }
 
 // ---- reference ---------------------------------------------------------------------------------------
